@@ -57,7 +57,9 @@ RULE = (
     "exhaustive over dialect(7) x schema/no schema x subset of requested {type_, nullable, server_default, new_column_name, comment, "
     "autoincrement} (64) x subset of stated existing_{type, nullable, server_default, comment, autoincrement} (32) = 28672 presence patterns; "
     "plus a deterministic constraint stream: every constraint-owning existing_type (5) x subset of the non-type attributes (32) x "
-    "with/without type_ x dialect x schema = 4480 calls judged by Spec.Alter.constraintOk; "
+    "with/without type_ x dialect x schema = 4480 calls judged by Spec.Alter.constraintOk; a kinds battery (type classes, '' / "
+    "func.now() / DefaultClause defaults, schema '' / quoted_name, postgresql_using '') and a configuration battery (literal_binds, "
+    "transactional_ddl, empty/overridden batch separators), each crossed with all 64 requested subsets x 7 dialects; "
     "per pattern one draw of plain values (quick) plus draws mixing in identity/computed defaults, schema-type (Boolean/Enum CHECK) types, "
     "postgresql_using, empty comments and same-name renames; 2 initial columns per case for the spec (one adversarial: every unstated "
     "attribute differs from what a restating statement would reset it to). A case is non-trivial when at least one attribute is requested; "
@@ -181,7 +183,7 @@ def _strip(st):
 
 def offenders(req, stmts):
     """statements whose table reference is not the requested schema.table"""
-    return [st for st in stmts if (st.get("schema"), st.get("table")) != (req.get("schema"), req.get("table"))]
+    return [st for st in stmts if (st.get("schema"), st.get("table")) != (ai.schema_text(req.get("schema")) or None, req.get("table"))]
 
 
 def misaddressed(req, stmts):
@@ -327,6 +329,42 @@ def constraint_stream(rng):
                         yield dialect, req
 
 
+def kinds_battery(rng):
+    """argument kinds and falsy values the random pools do not contain (coverage triage): type classes instead of
+    instances, further spellings of a plain default ('' / func.now() / DefaultClause), schema='' / quoted_name,
+    postgresql_using='' -- crossed with every requested subset, existing values all stated or not at all"""
+    schemas = [None, "s1", "", "qn:s1"]
+    for dialect in ai.DIALECTS:
+        for requested in subsets(REQ_ATTRS):
+            for stated in ((), tuple(EX_ATTRS)):
+                for k in range(2):
+                    req = draw_values(rng, requested, stated, False, False)
+                    req["schema"] = schemas[(len(requested) + len(stated) + k) % 4] if k == 0 else rng.choice(schemas)
+                    if req["type"] is not None and (k == 0 or rng.random() < 0.5):
+                        req["type"] = rng.choice(ai.TYPE_KEYS_CLASS)
+                    if req["ex_type"] is not None and rng.random() < 0.6:
+                        req["ex_type"] = rng.choice(ai.TYPE_KEYS_CLASS)
+                    if req["server_default"]["k"] == "set" and (k == 0 or rng.random() < 0.5):
+                        req["server_default"] = {"k": "set", "v": rng.choice(ai.DEFAULT_KEYS_PLAIN_EXTRA)}
+                    if req["ex_default"]["k"] == "set" and rng.random() < 0.6:
+                        req["ex_default"] = {"k": "set", "v": rng.choice(ai.DEFAULT_KEYS_PLAIN_EXTRA)}
+                    if rng.random() < 0.25:
+                        req["using"] = rng.choice(["", "c1::integer"])
+                    yield dialect, req
+
+
+def config_battery(rng):
+    """context configurations (literal_binds, transactional_ddl given, batch separators overridden/empty): the emitted
+    statements must not depend on them -- every requested subset x (nothing stated | everything stated) x schema"""
+    for config in ("alt", "tddl"):
+        for dialect in ai.DIALECTS:
+            for requested in subsets(REQ_ATTRS):
+                for stated in ((), tuple(EX_ATTRS)):
+                    req = draw_values(rng, requested, stated, len(requested) % 2 == 0, config == "tddl")
+                    req["config"] = config
+                    yield dialect, req
+
+
 def run(ctx, rng_name="main", draws=None, budget_s=None):
     import time
 
@@ -347,6 +385,12 @@ def run(ctx, rng_name="main", draws=None, budget_s=None):
     for dialect, req in constraint_stream(ctx.rng(rng_name + "/constraints")):
         b.add(dialect, req)
         ctx.hist("stream", "constraints")
+    for dialect, req in kinds_battery(ctx.rng(rng_name + "/kinds")):
+        b.add(dialect, req)
+        ctx.hist("stream", "kinds")
+    for dialect, req in config_battery(ctx.rng(rng_name + "/config")):
+        b.add(dialect, req)
+        ctx.hist("stream", "config:" + req["config"])
     # dialects interleaved innermost-last so that a time-capped search still sees every dialect
     for requested in subsets(REQ_ATTRS):
         if over():
@@ -415,7 +459,7 @@ def shrink_failures(ctx, per_key=1, budget_s=15):
         changed = True
         while changed:
             changed = False
-            for a in REQ_ATTRS + EX_ATTRS + ["using", "schema"]:
+            for a in REQ_ATTRS + EX_ATTRS + ["using", "schema", "config"]:
                 cur = req.get(a)
                 empty = {"k": "unset"} if isinstance(cur, dict) else None
                 if cur == empty or cur is None:
